@@ -81,6 +81,13 @@ def schemes(rng):
 REFUSALS = ("ScoringSchemeNotHandledException", "InompleteRankingsIncompatibleWithScoringSchemeException")
 COMPLETE = [[[0], [1, 2], [3]], [[3], [2], [1], [0]], [[1], [0, 3], [2]]]
 INCOMPLETE = [[[0], [1, 2]], [[3], [2], [0]], [[1], [3]], []]
+# other incomplete datasets: one ranking over the whole universe, with ties, which is also the best input ranking; a single-bucket
+# ranking; rankings that are heads of one another (the same once unified); one element ranked by one ranking only; a duplicated ranking
+INCOMPLETE_MORE = [[[[0, 1], [2], [3]], [[0], [1]], [[0, 1], [2]]],
+                   [[[0, 1, 2]], [[0], [3]], [[1], [2], [0]]],
+                   [[[2], [0, 1]], [[2], [0, 1], [3]], [[2]]],
+                   [[[0], [1], [2]], [[1], [0], [2]], [[2], [1], [0], [3]]],
+                   [[[3], [1, 2], [0]], [[3], [1, 2], [0]], [[1], [3]]]]
 
 
 # datasets that BECOME complete: built incomplete (element 4 in one ranking only, possibly an empty ranking), then given a past
@@ -130,6 +137,9 @@ class Applic(Suite):
             chosen = sch if tier == "thorough" else core + [x for x in rng.sample(sch, 14) if x not in core]
             for s in chosen:
                 cases.append({"alg": t, "s": s})
+            for k in range(len(INCOMPLETE_MORE)):      # the other incomplete datasets: under a scheme every algorithm accepts, and another one
+                cases.append({"alg": t, "s": rng.choice(core[:3]), "inc": 1 + k})
+                cases.append({"alg": t, "s": rng.choice(core[3:]), "inc": 1 + k})
             for k, s in enumerate(core[::3] + [gen.GENERIC]):         # complete data that has a past (became complete by an in-place removal)
                 cases.append({"alg": t, "s": s, "hist": 1 + k % 3})
             if t[0] not in ("exact", "parcons") or tier == "thorough":      # ... or that is simply large (300 rankings)
@@ -146,7 +156,8 @@ class Applic(Suite):
             pred = 2
         oc = outcome(build(case["alg"]), COMPLETE_BY_HISTORY[case["hist"] - 1][0], case["s"], COMPLETE_BY_HISTORY[case["hist"] - 1][1]) if case.get("hist") else \
             outcome(build(case["alg"]), COMPLETE, case["s"])
-        return {"pred": pred, "oc": oc, "oi": outcome(build(case["alg"]), INCOMPLETE, case["s"])}
+        inc = INCOMPLETE if not case.get("inc") else INCOMPLETE_MORE[case["inc"] - 1]
+        return {"pred": pred, "oc": oc, "oi": outcome(build(case["alg"]), inc, case["s"])}
 
     def term(self, case, out):
         return f"({alg_term(case['alg'])}, {scheme_term(case['s'])}, {z(out['pred'])}, {z(out['oc'])}, {z(out['oi'])})"
